@@ -82,6 +82,11 @@ def generate(rng, tier):
     n = rng.choice([1, 1, 2, 2, 3, 4, 6])
     m = rng.choice([2, 2, 3, 4, 5, 8, 11])
     k = rng.choice([1, 1, 2, 3, 4])
+    big = rng.random()
+    if big < 0.04:      # many samples: header lines of the columns layout far longer than any read-ahead buffer
+        n, m, k = rng.choice([80, 150, 400]), 2, 1
+    elif big < 0.08:    # many scans: every line of the rows layout is long
+        n, m, k = 1, rng.choice([300, 1100]), rng.choice([1, 2])
     delimiter, decimal = rng.choice([(",", "."), (";", "."), (";", ",")])
     xname = rng.choice(["X [u]", "X (u)"])
     extra = [c for c in CHANNELS[:-1] if rng.random() < 0.55]
@@ -91,7 +96,7 @@ def generate(rng, tier):
     if not channels:
         channels = ["Counter"]
     elements = rng.sample(LABELS, k)
-    samples = rng.sample(SAMPLES, n) if rng.random() < 0.7 else [f"Sample {i + 1}" for i in range(n)]
+    samples = rng.sample(SAMPLES, n) if rng.random() < 0.7 and n <= len(SAMPLES) else [f"Sample {i + 1}" for i in range(n)]
     dt = rng.choice([1.0049, 0.2, 0.25, 0.50005, 0.1, 2.0])
     tokens = []
     for i in range(n):
